@@ -11,7 +11,7 @@ UW = {'bui31_next.*': 33, 'bi31_next.*': 34, 'bui63_next.*': 65, 'bi63_next.*': 
       'strchr.*': 24, 'strncmp.*': 12, 'strcmp.*': 12, 'send_rrul.*': 4, 'sym_load.*': 4, 'strtol.*': 11, 'echs_instant_fixup.*': 3}
 def ob(name, defs, **kw):
     o = dict(name=name, src='h_seria.c', defs=defs + ['WORD_MEMOPS'], units=['src/bitint.c'], incl=['src/evical.c'], replay_units='all', unwind=5, unwindset=dict(UW),
-             solver='cadical', timeout=1500, mem_gb=16, checks=['--bounds-check'],
+             solver='minisat', slice_formula=True, timeout=1500, mem_gb=16, checks=['--bounds-check'],
              allow_nobody=['echs_toid_gen', 'echs_instant_utc', 'echs_tzob_offs', 'echs_instant_loc', 'obint_name', 'strndup'],
              stubs=['fdprnt.h pre-empted by token recorders', 'reference strtol/memchr, word-wise mem* (harness/common/libc_models.h)'])
     o.update(kw)
